@@ -240,6 +240,16 @@ class MarkerExpression(SingleMarker):
         return oper(lhs, rhs)
 
 
+def _is_reversed_containment(marker: BaseMarker) -> bool:
+    """``"lit" in name`` / ``"lit" not in name``: a substring test on the
+    environment value, which the specifier view (``name in "lit"``) cannot express."""
+    return (
+        isinstance(marker, MarkerExpression)
+        and marker.reversed
+        and marker.op in ("in", "not in")
+    )
+
+
 @dataclass(frozen=True, unsafe_hash=True, **DATACLASS_ARGS)
 class EqualityMarkerUnion(SingleMarker):
     name: str
@@ -265,7 +275,7 @@ class EqualityMarkerUnion(SingleMarker):
         if not isinstance(other, SingleMarker):
             return NotImplemented
 
-        if self.name != other.name:
+        if self.name != other.name or _is_reversed_containment(other):
             return MultiMarker(self, other)
         if isinstance(other, MarkerExpression):
             new_values = OrderedSet([v for v in self.values if v in other.specifier])
@@ -283,7 +293,7 @@ class EqualityMarkerUnion(SingleMarker):
         if not isinstance(other, SingleMarker):
             return NotImplemented
 
-        if self.name != other.name:
+        if self.name != other.name or _is_reversed_containment(other):
             return MarkerUnion(self, other)
 
         if isinstance(other, MarkerExpression):
@@ -336,7 +346,7 @@ class InequalityMultiMarker(SingleMarker):
 
         if not isinstance(other, SingleMarker):
             return NotImplemented
-        if self.name != other.name:
+        if self.name != other.name or _is_reversed_containment(other):
             return MultiMarker(self, other)
 
         if isinstance(other, MarkerExpression):
@@ -365,7 +375,7 @@ class InequalityMultiMarker(SingleMarker):
         if not isinstance(other, SingleMarker):
             return NotImplemented
 
-        if self.name != other.name:
+        if self.name != other.name or _is_reversed_containment(other):
             return MarkerUnion(self, other)
 
         if isinstance(other, MarkerExpression):
@@ -396,6 +406,9 @@ def _merge_single_markers(
 ) -> BaseMarker | None:
     from dep_logic.markers.multi import MultiMarker
     from dep_logic.markers.union import MarkerUnion
+
+    if _is_reversed_containment(marker1) or _is_reversed_containment(marker2):
+        return None
 
     if {marker1.name, marker2.name} == PYTHON_VERSION_MARKERS:
         return _merge_python_version_single_markers(marker1, marker2, merge_class)
